@@ -665,6 +665,83 @@ func runInprocDialParkedAtClose(c *Ctx) {
 	go func() { _ = c2.Close() }()
 }
 
+// C10 — the same Dial, parked because the listener's accept loop is busy, ends when the *dialling* socket is closed:
+// its Close returns, the Dial returns, and no goroutine of the dialling side remains although the listener is still not
+// accepting.
+func runInprocDialParkedAtOwnClose(c *Ctx) {
+	tr := transportNamed("inproc")
+	srv, _ := pull.NewSocket()
+	release := make(chan struct{})
+	var once sync.Once
+	entered := make(chan struct{})
+	srv.SetPipeEventHook(func(ev mangos.PipeEvent, p mangos.Pipe) {
+		if ev == mangos.PipeEventAttaching {
+			once.Do(func() { close(entered) })
+			<-release // the accept loop is busy with this connection
+		}
+	})
+	l, err := srv.NewListener(r4addr(tr), nil)
+	if err != nil || l.Listen() != nil {
+		_ = srv.Close()
+		return
+	}
+	c1, _ := push.NewSocket()
+	c2, _ := push.NewSocket()
+	go func() { _ = c1.Dial(l.Address()) }()
+	select {
+	case <-entered:
+	case <-time.After(time.Second):
+		close(release)
+		_ = srv.Close()
+		_ = c1.Close()
+		_ = c2.Close()
+		return
+	}
+	done := make(chan error, 1)
+	go func() { done <- c2.Dial(l.Address()) }() // parks: the address is bound but nobody is accepting
+	time.Sleep(60 * time.Millisecond)
+	closed := make(chan struct{})
+	go func() { _ = c2.Close(); close(closed) }()
+	obs := "returned"
+	select {
+	case <-done:
+	case <-time.After(2 * time.Second):
+		obs = "blocked"
+	}
+	select {
+	case <-closed:
+	case <-time.After(2 * time.Second):
+		obs = "blocked"
+	}
+	// the dialling side's goroutines: everything of the library that is not the listener's accept loop held by the hook
+	left := []string{}
+	if obs == "returned" {
+		for i := 0; i < 100; i++ {
+			left = left[:0]
+			for _, g := range vp.LibGoroutines() {
+				if strings.Contains(g, "dialer") || strings.Contains(g, "Dial") {
+					left = append(left, g)
+				}
+			}
+			if len(left) == 0 {
+				break
+			}
+			time.Sleep(20 * time.Millisecond)
+		}
+	}
+	c.Class("inproc-dial-parked-at-own-close", true)
+	if obs != "returned" || len(left) > 0 {
+		c.Violate(fmt.Sprintf("inproc: a Dial waiting for the listener to accept (its accept loop is held up) did not end with its own socket: %s 2 s after Socket.Close of the dialling socket; dialling goroutines left: %v", obs, left),
+			map[string]interface{}{"history": "PULL listens on inproc with an Attaching hook that keeps the accept loop busy; a second PUSH socket dials (parks); that PUSH socket is closed", "goroutines": left})
+		obs = "blocked"
+	}
+	c10Line(c, "inproc-dial-parked-at-own-close", "dial-parked-at-close", obs)
+	close(release)
+	_ = c1.Close()
+	_ = srv.Close()
+	c10settle()
+}
+
 // C16 — a peer that connects and then says nothing (no TLS hello, no WebSocket upgrade, no SP header) must not keep a
 // well-behaved peer out: every stream transport, a real listener, a raw silent connection, then a real dialer.
 func runSilentPeerDoesNotDelayOthers(c *Ctx) {
